@@ -317,7 +317,8 @@ func (l *Lexer) skipWhitespace() {
 }
 
 func (l *Lexer) skipToNextLine() {
-	for l.ch != '\n' && l.ch != 0 {
+	// A NUL character inside a comment is part of the comment; only the end of the input ends it.
+	for l.ch != '\n' && (l.ch != 0 || l.position < len(l.input)) {
 		l.readChar()
 	}
 	l.readChar()
